@@ -496,6 +496,8 @@ def h_minimum(a, b):
 @handler("clamp", "clip")
 def h_clamp(a, min=None, max=None):
     # torch semantics: min(max(x, lo), hi); with lo > hi the result is hi
+    if min is None and max is None:
+        raise RuntimeError("torch.clamp: At least one of 'min' or 'max' must not be None")
     r = a
     if min is not None:
         r = _bin(el.max_, r, min, dtype=_dtype_of(a))
@@ -1408,6 +1410,23 @@ def h_l1(input, target, size_average=None, reduce=None, reduction="mean", weight
     if reduction == "sum":
         return h_sum(d)
     return d
+
+
+@handler("pad")
+def h_pad(a, pad, mode="constant", value=None):
+    if mode != "constant":
+        raise EngineUnsupported("pad mode " + mode)
+    p = payload(a)
+    widths = [(0, 0)] * p.ndim
+    for k in range(len(pad) // 2):
+        widths[p.ndim - 1 - k] = (int(pad[2 * k]), int(pad[2 * k + 1]))
+    fill = el.lift(0 if value is None else value)
+    shape = tuple(s_ + lo + hi for s_, (lo, hi) in zip(p.shape, widths))
+    out = np.empty(shape, dtype=object)
+    out[...] = fill
+    sl = tuple(slice(lo, lo + s_) for s_, (lo, hi) in zip(p.shape, widths))
+    out[sl] = p
+    return SymTensor(out, a.dtype)
 
 
 @handler("softplus")
